@@ -13,7 +13,10 @@ import (
 type C09Case struct {
 	File     *File             `json:"file"`
 	Switches map[string]string `json:"switches,omitempty"`
+	Auto     AutoCfg           `json:"auto,omitempty"`
 }
+
+var c09Auto = AutoCfg{"asktext": {VarName: "VAR_RESULT"}}
 
 func c09Src(c *C09Case) string { return Canon(c.File) }
 
@@ -85,7 +88,31 @@ func genC09(t *rapid.T) *C09Case {
 	n := rapid.IntRange(1, 4).Draw(t, "ntexts")
 	sc := &Script{Name: "S", Body: &Block{Stmts: []*Stmt{}}}
 	for i := 0; i < n; i++ {
-		switch rapid.IntRange(0, 3).Draw(t, "origin") {
+		switch rapid.IntRange(0, 4).Draw(t, "origin") {
+		case 4: // argument of an AutoVar command inside a condition, at various operand positions
+			c.Auto = c09Auto
+			auto := eLeaf(&Leaf{Kind: "auto", Auto: &Cmd{Name: "asktext", Args: []*Arg{{Text: c09TextVal(t)}, {Toks: []string{fmt.Sprintf("U_%d", i)}}}}})
+			other := eLeaf(&Leaf{Kind: "flag", Operand: []string{"FLAG_A"}})
+			var cond *Expr
+			switch rapid.IntRange(0, 5).Draw(t, "autopos") {
+			case 0:
+				cond = auto
+			case 1:
+				cond = eAnd(other, auto)
+			case 2:
+				cond = eOr(auto, other)
+			case 3:
+				cond = eAnd(ePar(auto), other)
+			case 4:
+				cond = eOr(eAnd(other, auto), eLeaf(&Leaf{Kind: "flag", Operand: []string{"FLAG_B"}}))
+			default:
+				cond = eNot(eAnd(other, auto))
+			}
+			stmt := &Stmt{K: "if", If: &If{Arms: []*Arm{{Cond: cond, Body: &Block{Stmts: []*Stmt{}}}}}}
+			if rapid.Bool().Draw(t, "aswhile") {
+				stmt = &Stmt{K: "while", While: &While{Cond: cond, Body: &Block{Stmts: []*Stmt{sBreak()}}}}
+			}
+			sc.Body.Stmts = append(sc.Body.Stmts, stmt)
 		case 0: // inline argument
 			cmd := &Cmd{Name: fmt.Sprintf("c%d", i), Args: []*Arg{{Text: c09TextVal(t)}}}
 			sc.Body.Stmts = append(sc.Body.Stmts, sCmd(cmd))
@@ -109,7 +136,7 @@ func genC09(t *rapid.T) *C09Case {
 	if rapid.IntRange(0, 3).Draw(t, "constname") == 0 {
 		c.File.Tops = append([]*Top{{K: "const", Const: &Const{Name: "KONST", Val: []string{"7"}}}}, c.File.Tops...)
 		for _, s := range sc.Body.Stmts {
-			if rapid.Bool().Draw(t, "useconstname") {
+			if s.K == "cmd" && rapid.Bool().Draw(t, "useconstname") {
 				s.Cmd.Args[0].Text = &TextVal{Lit: &StrLit{Parts: []string{"KONST"}}}
 			}
 		}
@@ -187,7 +214,7 @@ func checkC09(c *C09Case) *Violation {
 	src := c09Src(c)
 	fc := RepoFonts()
 	resolved, ok := Resolve(c.File, c.Switches)
-	res := Compile(src, Opts{Optimize: true, FontPath: "@repo", Switches: c.Switches})
+	res := Compile(src, Opts{Optimize: true, FontPath: "@repo", Switches: c.Switches, Auto: c.Auto})
 	if res.Panic != nil || res.Budget {
 		return viol("crash", "%s\n--- source\n%s", res.Describe(), src)
 	}
@@ -225,9 +252,10 @@ func checkC09(c *C09Case) *Violation {
 				nt = true
 			}
 		case "script":
-			walkCmdsOrdered(t.Script.Body, func(cmd *Cmd) {})
-			for _, s := range t.Script.Body.Stmts {
-				for _, ar := range s.Cmd.Args {
+			var cmds []*Cmd
+			walkCmdsOrdered(t.Script.Body, func(cmd *Cmd) { cmds = append(cmds, cmd) })
+			for _, cmd := range cmds {
+				for _, ar := range cmd.Args {
 					if ar.Text == nil {
 						continue
 					}
@@ -285,7 +313,7 @@ func TestC09_Regress(t *testing.T) { runRegress(t, "C09") }
 
 func TestC09_Text(t *testing.T) {
 	st := stat("C09")
-	st.SetRule("1-4 texts per file from every origin (inline argument, text statement with scope, format() with and without parameters, text poryswitch with colon/brace cases, '_' fallback, missing case); literals of 1-4 parts over letters, multi-byte characters, braces, $, backslash codes, quotes-free punctuation, comment characters, empty parts, line breaks written inside a part, tails that already end in the terminator or a prefix of it; types none/ascii/braille/other; each emitted block must have the right directive, one directive per source part, the source content and exactly one correct terminator. non-trivial = multi-part or typed or poryswitch origin; distinct by source text")
+	st.SetRule("1-4 texts per file from every origin (inline argument, argument of an AutoVar command at various operand positions of a condition, text statement with scope, format() with and without parameters, text poryswitch with colon/brace cases, '_' fallback, missing case); literals of 1-4 parts over letters, multi-byte characters, braces, $, backslash codes, quotes-free punctuation, comment characters, empty parts, line breaks written inside a part, tails that already end in the terminator or a prefix of it; types none/ascii/braille/other; each emitted block must have the right directive, one directive per source part, the source content and exactly one correct terminator. non-trivial = multi-part or typed or poryswitch origin; distinct by source text")
 	st.Assume("a literal's value: parts joined by newline, a line break inside a part plus following whitespace is one space", "texts ending in a doubled terminator are outside the generated domain")
 	runRapid(t, "C09", "TestC09_Text", genC09, checkC09, c09Src)
 }
